@@ -272,6 +272,16 @@ def run(prop, tier, seed, replay=None):
         tres = pool.run(workers.typearg_cases, tjobs)
         cases += tres
         rep.extra["type_argument_cases"] = len(tres)
+    if prop == "C07":
+        # f.next from a method with self (recorded deviation KF-fnext-self)
+        fres = pool.run(workers.fnext_self_cases, [{"id": "C07-fnextself"}], procs=1)
+        for c in fres:
+            if "skip" in c:
+                cases.append(c)
+                continue
+            ms = [worlds.mkmethod("m1", 1, [1], body="leaf"), worlds.mkmethod("m2", 2, [2], body="fnext")]
+            cases.append({"id": c["id"], "props": ["C07"], "world": {"parents": [[], [1]], "methods": ms, "fnext_self": True},
+                          "steps": [{"call": c["call"], "obs": c["obs"]}]})
     skipped = [c for c in cases if "skip" in c]
     harness_bugs = [c for c in skipped if c["skip"].startswith("harness")]
     if harness_bugs:
@@ -293,7 +303,7 @@ def run(prop, tier, seed, replay=None):
             rep.evaluations += 1
             if py_applicable_count(c["world"], st["call"]) >= 2:
                 rep.note_nontrivial(json.dumps([c["world"], st["call"]], sort_keys=True))
-        if v["flags"].get("drift") == "1":
+        if v["flags"].get("drift") == "1" and not c["world"].get("fnext_self"):   # (the Impl layer does not model Ovld.next with self)
             ndrift += 1
             if ndrift <= 1:
                 rep.spec_drift(f"ResolveImpl does not predict the observation of case {cid} (first of possibly many)")
@@ -306,7 +316,7 @@ def run(prop, tier, seed, replay=None):
             rep.rejected(
                 rej["clause"],
                 {"kind": "static_case", "world": c["world"], "step": step, "case_id": cid},
-                {"kf": rej["kf"] if prop != "C06" else v["flags"].get("kf")},
+                {"kf": rej["kf"] if prop != "C06" else v["flags"].get("kf"), "fnext_self": bool(c["world"].get("fnext_self"))},
             )
     if ndrift > 1:
         rep.drift[-1] += f" [{ndrift} cases]"
